@@ -3,7 +3,7 @@
    parsers, threaded through the header line, the header block and the message (one call; any chunk
    schedule by C01). *)
 From Sipsp Require Import RunLemmas Safe Resume Ext ExtLeaf ZSlice Harness ExtFLine ExtAdv ExtHdrLine ExtHeaders ExtLists
-  SafeMsg Capacity CapHeaders Layout BlockSpec TrimSpec.
+  SafeMsg Capacity CapHeaders Layout BlockSpec TrimSpec LowerLists.
 From Coq Require Import ZifyN ZifyNat ZifyBool.
 From RecordUpdate Require Import RecordUpdate.
 
@@ -12,8 +12,6 @@ Proof. unfold pf_set. destruct (b <? a); [discriminate|]. intros H. injection H 
 Lemma pf_extend_some_po f e f' : pf_extend f e = Some f' -> po f' = po f.
 Proof. unfold pf_extend. destruct (e <? po f); [discriminate|]. intros H. injection H as <-. reflexivity. Qed.
 
-(* a value span is empty or starts at or after lb *)
-Definition lbv (lb : N) (f : pf) : Prop := pl f = 0 \/ lb <= po f.
 
 (* ---- Call-ID --------------------------------------------------------------------------------------------------------------------------- *)
 Definition LBci (lb : N) (s : callid) : Prop := (ci_state s = CiFound -> lb <= ci_soffs s) /\ lbv lb (ci_callid s).
@@ -114,7 +112,10 @@ Qed.
 Definition PRci (s : callid) : Prop := ci_parsed s = true \/ (ci_state s = CiInit /\ pl (ci_callid s) = 0).
 Definition PRcs (s : cseq) : Prop := cs_parsed s = true \/ cs_state s = CsInit.
 Definition PRui (s : uintb) : Prop := ui_parsed s = true \/ (ui_state s = ClInit /\ pl (ui_sval s) = 0).
-Definition PRv (v : phvals) : Prop := PRci (pv_callid v) /\ PRcs (pv_cseq v) /\ PRui (pv_clen v) /\ PRui (pv_expires v).
+Definition PRct (c : contacts) : Prop := ct_wf c /\ ct_sel c = pfrom0.
+Definition PRpa (c : pais) : Prop := pa_wf c /\ pa_sel c = pfrom0.
+Definition PRv (v : phvals) : Prop :=
+  PRci (pv_callid v) /\ PRcs (pv_cseq v) /\ PRui (pv_clen v) /\ PRui (pv_expires v) /\ PRct (pv_contacts v) /\ PRpa (pv_pais v).
 Definition PRo (o : option phvals) : Prop := match o with Some v => PRv v | None => True end.
 
 Lemma PRci_LB lb s : PRci s -> ci_parsed s = false -> LBci lb s.
@@ -128,25 +129,40 @@ Proof. unfold cs_parsed, LBcs, lbv. destruct (cs_state s); try discriminate. int
 
 Lemma PRv_from v b : PRv v -> PRv (v <| pv_from := b |>). Proof. destruct v; unfold PRv; cbn; auto. Qed.
 Lemma PRv_to v b : PRv v -> PRv (v <| pv_to := b |>). Proof. destruct v; unfold PRv; cbn; auto. Qed.
-Lemma PRv_contacts v b : PRv v -> PRv (v <| pv_contacts := b |>). Proof. destruct v; unfold PRv; cbn; auto. Qed.
-Lemma PRv_pais v b : PRv v -> PRv (v <| pv_pais := b |>). Proof. destruct v; unfold PRv; cbn; auto. Qed.
+Lemma PRv_contacts v b : PRv v -> PRct b -> PRv (v <| pv_contacts := b |>). Proof. destruct v; unfold PRv; cbn; intuition. Qed.
+Lemma PRv_pais v b : PRv v -> PRpa b -> PRv (v <| pv_pais := b |>). Proof. destruct v; unfold PRv; cbn; intuition. Qed.
 Lemma PRv_callid v b : PRv v -> PRci b -> PRv (v <| pv_callid := b |>). Proof. destruct v; unfold PRv; cbn; intuition. Qed.
 Lemma PRv_cseq v b : PRv v -> PRcs b -> PRv (v <| pv_cseq := b |>). Proof. destruct v; unfold PRv; cbn; intuition. Qed.
 Lemma PRv_clen v b : PRv v -> PRui b -> PRv (v <| pv_clen := b |>). Proof. destruct v; unfold PRv; cbn; intuition. Qed.
 Lemma PRv_expires v b : PRv v -> PRui b -> PRv (v <| pv_expires := b |>). Proof. destruct v; unfold PRv; cbn; intuition. Qed.
 
-Definition special (t : N) : bool := (t =? HdrFrom) || (t =? HdrTo) || (t =? HdrContact) || (t =? HdrPAI).
-(* the value of a finished header: of one of the four kinds handled elsewhere, or empty, or after the name *)
+Lemma ct_newhdr_LB o c : PRct c -> LBct o (c <| ct_hno := ct_hno c + 1 |> <| ct_lasthval := pf0 |>).
+Proof.
+  intros [W Sl]. destruct c as [vals n hno mx mn lh last first].
+  change ((mkcontacts vals n hno mx mn lh last first) <| ct_hno := ct_hno (mkcontacts vals n hno mx mn lh last first) + 1 |> <| ct_lasthval := pf0 |>)
+    with (mkcontacts vals n (hno + 1) mx mn pf0 last first).
+  unfold LBct, ct_wf, lbv, ct_cap in *. rewrite ct_sel_eq in *. cbn in *. split; [exact W|]. split; [exact Sl|left; reflexivity].
+Qed.
+Lemma pa_newhdr_LB o c : PRpa c -> LBpa o (c <| pa_hno := pa_hno c + 1 |> <| pa_lasthval := pf0 |>).
+Proof.
+  intros [W Sl]. destruct c as [vals n hno lh last].
+  change ((mkpais vals n hno lh last) <| pa_hno := pa_hno (mkpais vals n hno lh last) + 1 |> <| pa_lasthval := pf0 |>)
+    with (mkpais vals n (hno + 1) pf0 last).
+  unfold LBpa, pa_wf, lbv in *. rewrite pa_sel_proj in *. unfold pa_cap in *. cbn in *. split; [exact W|]. split; [exact Sl|left; reflexivity].
+Qed.
+
+Definition special (t : N) : bool := (t =? HdrFrom) || (t =? HdrTo).
+(* the value of a finished header: From / To (handled by the layout theorem), or empty, or after the name *)
 Definition vbound (h : hdr) : Prop := special (h_type h) = true \/ pl (h_val h) = 0 \/ pf_end (h_name h) < po (h_val h).
 
 (* the header-specific value parser started at o, just after the colon *)
-Lemma hb_run_VL hs v' pre rest o st : hb_pick st = Some (hs, v') -> PRo (hx_pv st) -> pf_end (h_name (hx_h st)) < o ->
+Lemma hb_run_VL hs v' pre rest o st : o = nnat (length pre) -> hb_pick st = Some (hs, v') -> PRo (hx_pv st) -> pf_end (h_name (hx_h st)) < o ->
   match hb_run hs pre rest o st v' with
   | Ret n e st' => e = EOk -> vbound (hx_h st') /\ PRo (hx_pv st')
   | _ => True
   end.
 Proof.
-  unfold hb_pick. destruct (hx_pv st) as [v|] eqn:Epv; [|discriminate]. cbv zeta. intros Hpick HPR Hn. pose proof HPR as (P1 & P2 & P3 & P4).
+  intros Ho. unfold hb_pick. destruct (hx_pv st) as [v|] eqn:Epv; [|discriminate]. cbv zeta. intros Hpick HPR Hn. pose proof HPR as (P1 & P2 & P3 & P4 & P5 & P6).
   set (t := h_type (hx_h st)) in *.
   assert (Fin : forall {B} (R : list byte -> list byte -> N -> B -> res B) sel put valof hs0 (vv : phvals),
             (forall pre rest o st v, hb_run hs0 pre rest o st v
@@ -194,8 +210,13 @@ Proof.
     apply PRv_clen; [exact HPR|left; exact Hpar]. }
   destruct (t =? HdrContact) eqn:E6.
   { injection Hpick as <- <-.
+    set (c1 := (pv_contacts v) <| ct_hno := ct_hno (pv_contacts v) + 1 |> <| ct_lasthval := pf0 |>).
+    assert (Hc1 : LBct o c1) by (subst c1; apply ct_newhdr_LB; exact P5).
     apply (Fin _ (fun pre rest o b => run ct_iter pre rest o 0 b) pv_contacts (fun v b => v <| pv_contacts := b |>) ct_lasthval HContact); [reflexivity|].
-    intros n e b' _ _. split; [left; unfold special; rewrite E6; rewrite ?orb_true_r; reflexivity|apply PRv_contacts, PRv_contacts; exact HPR]. }
+    intros n e b' ER He. subst e.
+    replace (pv_contacts (v <| pv_contacts := c1 |>)) with c1 in ER by (destruct v; reflexivity).
+    destruct (ct_run_lb o pre rest o c1 n b' Ho (N.le_refl o) Hc1 ER) as (W' & S' & L').
+    split; [right; exact L'|]. apply PRv_contacts; [apply PRv_contacts; [exact HPR|destruct Hc1 as (A & B & _); split; assumption]|split; assumption]. }
   destruct (t =? HdrExpires) eqn:E7.
   { destruct (ui_parsed (pv_expires v)) eqn:Ep; [discriminate|]. injection Hpick as <- <-.
     apply (Fin _ (fun pre rest o b => run ui_iter pre rest o 0 b) pv_expires (fun v b => v <| pv_expires := b |>) ui_sval HExpires v); [reflexivity|].
@@ -204,8 +225,13 @@ Proof.
     apply PRv_expires; [exact HPR|left; exact Hpar]. }
   destruct (t =? HdrPAI) eqn:E8; [|discriminate].
   injection Hpick as <- <-.
+  set (c1 := (pv_pais v) <| pa_hno := pa_hno (pv_pais v) + 1 |> <| pa_lasthval := pf0 |>).
+  assert (Hc1 : LBpa o c1) by (subst c1; apply pa_newhdr_LB; exact P6).
   apply (Fin _ (fun pre rest o b => run pa_iter pre rest o 0 b) pv_pais (fun v b => v <| pv_pais := b |>) pa_lasthval HPAI); [reflexivity|].
-  intros n e b' _ _. split; [left; unfold special; rewrite E8; rewrite ?orb_true_r; reflexivity|apply PRv_pais, PRv_pais; exact HPR].
+  intros n e b' ER He. subst e.
+  replace (pv_pais (v <| pv_pais := c1 |>)) with c1 in ER by (destruct v; reflexivity).
+  destruct (pa_run_lb o pre rest o c1 n b' Ho (N.le_refl o) Hc1 ER) as (W' & S' & L').
+  split; [right; exact L'|]. apply PRv_pais; [apply PRv_pais; [exact HPR|destruct Hc1 as (A & B & _); split; assumption]|split; assumption].
 Qed.
 
 (* ---- the header line (one call from a fresh header) ---------------------------------------------------------------------------------- *)
@@ -229,10 +255,13 @@ Definition VL_res (pre rest : list byte) (i : N) (r : ires hline) : Prop :=
   | IPanic => True
   end.
 
-Lemma colon_VL pre rest i k st : PRo (hx_pv st) -> pl (h_val (hx_h st)) = 0 -> pf_end (h_name (hx_h st)) <= i + nnat k ->
+Lemma colon_VL pre rest i k st : i = nnat (length pre) -> (S k <= length rest)%nat ->
+  PRo (hx_pv st) -> pl (h_val (hx_h st)) = 0 -> pf_end (h_name (hx_h st)) <= i + nnat k ->
   VL_res pre rest i (hl_colon pre rest i k st).
 Proof.
-  intros Hpr Hv Hn. rewrite hl_colon_eq. unfold hl_colon'. destruct (zget _ _ _ _) as [name|]; [|exact I]. cbv zeta.
+  intros Hi Hk Hpr Hv Hn.
+  assert (Ho : i + nnat k + 1 = nnat (length (zpre (S k) pre rest))).
+  { unfold zpre. rewrite app_length, rev_length, firstn_length. unfold nnat in *. lia. } rewrite hl_colon_eq. unfold hl_colon'. destruct (zget _ _ _ _) as [name|]; [|exact I]. cbv zeta.
   set (st1 := st <| hx_h := (hx_h st) <| h_state := HBodyStart |> <| h_type := get_hdr_type name |> |>).
   assert (F1 : hx_pv st1 = hx_pv st) by (subst st1; destruct st as [h pv]; reflexivity).
   assert (F2 : h_state (hx_h st1) = HBodyStart) by (subst st1; destruct st as [h pv]; destruct h; reflexivity).
@@ -240,16 +269,18 @@ Proof.
   assert (F4 : h_val (hx_h st1) = h_val (hx_h st)) by (subst st1; destruct st as [h pv]; destruct h; reflexivity).
   clearbody st1.
   destruct (hb_pick st1) as [[hs v']|] eqn:Ep.
-  - pose proof (hb_run_VL hs v' (zpre (S k) pre rest) (zrest (S k) rest) (i + nnat k + 1) st1 Ep ltac:(rewrite F1; exact Hpr) ltac:(rewrite F3; lia)) as H.
+  - pose proof (hb_run_VL hs v' (zpre (S k) pre rest) (zrest (S k) rest) (i + nnat k + 1) st1 Ho Ep ltac:(rewrite F1; exact Hpr) ltac:(rewrite F3; lia)) as H.
     pose proof (hb_run_noNext hs (zpre (S k) pre rest) (zrest (S k) rest) (i + nnat k + 1) st1 v') as Hnn.
     destruct (hb_run hs _ _ _ st1 v') as [|n e st'|]; [destruct Hnn| |exact I]. exact H.
   - unfold VL_res. intros _ _. unfold VL. rewrite F1. split; [exact Hpr|]. cbv zeta. rewrite F2, F3, F4. split; [exact Hv|unfold nnat in *; lia].
 Qed.
 
-Lemma name_ph_VL pre rest i st : PRo (hx_pv st) -> pl (h_val (hx_h st)) = 0 -> VL_res pre rest i (hl_name_ph pre rest i st).
+Lemma skipn_cons_len {A} k (l : list A) c r : skipn k l = c :: r -> (S k <= length l)%nat.
+Proof. intros H. assert (L : length (skipn k l) = length (c :: r)) by (rewrite H; reflexivity). rewrite skipn_length in L. cbn in L. lia. Qed.
+Lemma name_ph_VL pre rest i st : i = nnat (length pre) -> PRo (hx_pv st) -> pl (h_val (hx_h st)) = 0 -> VL_res pre rest i (hl_name_ph pre rest i st).
 Proof.
-  intros Hpr Hv. unfold hl_name_ph. cbv zeta. set (k := skipTokenDelim 58 rest).
-  destruct (skipn k rest) as [|c r]; [intros E; discriminate E|].
+  intros Hi Hpr Hv. unfold hl_name_ph. cbv zeta. set (k := skipTokenDelim 58 rest).
+  destruct (skipn k rest) as [|c r] eqn:Sk; [intros E; discriminate E|]. pose proof (skipn_cons_len _ _ _ _ Sk) as Hk.
   destruct (is_sp c).
   - destruct (pf_extend (h_name (hx_h st)) (i + nnat k)) as [n|] eqn:En; [|exact I]. destruct (pf_empty n); [intros E; discriminate E|].
     unfold VL_res. intros _ _.
@@ -267,7 +298,7 @@ Proof.
     assert (F1 : hx_pv st' = hx_pv st) by (subst st'; destruct st as [h pv]; reflexivity).
     assert (F3 : h_name (hx_h st') = n) by (subst st'; destruct st as [h pv]; destruct h; reflexivity).
     assert (F4 : h_val (hx_h st') = h_val (hx_h st)) by (subst st'; destruct st as [h pv]; destruct h; reflexivity).
-    clearbody st'. apply colon_VL; [rewrite F1; exact Hpr|rewrite F4; exact Hv|].
+    clearbody st'. apply colon_VL; [exact Hi|exact Hk|rewrite F1; exact Hpr|rewrite F4; exact Hv|].
     rewrite F3. unfold pf_extend in En. destruct (i + nnat k <? po (h_name (hx_h st))) eqn:El; [discriminate|]. injection En as <-.
     unfold pf_end. cbn [po pl]. unfold nnat in *. lia.
 Qed.
@@ -281,12 +312,12 @@ Proof.
     rewrite (hit_init pre c r i st Est).
     destruct (is_cr c); [destruct r; intros E; discriminate E|]. destruct (is_lf c); [intros E; discriminate E|].
     destruct (pf_set i i) as [n|]; [|exact I]. cbv beta iota.
-    apply name_ph_VL; destruct st as [h pv]; destruct h; cbn in *; assumption.
+    apply name_ph_VL; [exact Hi| |]; destruct st as [h pv]; destruct h; cbn in *; assumption.
   - rewrite (hit_name pre _ i st Est). apply name_ph_VL; assumption.
   - (* HNameEnd *)
     destruct Hs as [Hv Hn]. rewrite (hit_nameend pre _ i st Est). unfold hl_nameend. cbv zeta.
-    destruct (skipn _ (c :: r)) as [|d r']; [intros E; discriminate E|]. destruct (d =? 58); [|intros E; discriminate E].
-    apply colon_VL; [exact Hpr|exact Hv|lia].
+    destruct (skipn _ (c :: r)) as [|d r'] eqn:Sk; [intros E; discriminate E|]. destruct (d =? 58); [|intros E; discriminate E].
+    apply colon_VL; [exact Hi|exact (skipn_cons_len _ _ _ _ Sk)|exact Hpr|exact Hv|lia].
   - (* HBodyStart *)
     destruct Hs as [Hv Hn]. rewrite (hit_bstart pre _ i st Est). unfold hl_bstart.
     destruct (skipLWS false (c :: r)) as [k|k crl|k]; [| |intros E; discriminate E].
@@ -375,16 +406,24 @@ Proof.
     apply Hst; assumption.
 Qed.
 
-Lemma PRv_init cv : PRv (phvals_init cv).
-Proof. unfold PRv, phvals_init, PRci, PRcs, PRui. cbn. repeat split; right; auto. Qed.
+Lemma PRv_init nc : PRv (phvals_init (repeat pfrom0 nc)).
+Proof.
+  unfold PRv, phvals_init. cbn [pv_callid pv_cseq pv_clen pv_expires pv_contacts pv_pais].
+  split; [right; split; reflexivity|]. split; [right; reflexivity|]. split; [right; split; reflexivity|]. split; [right; split; reflexivity|].
+  split.
+  - unfold PRct, contacts_init. split; [split; [intros j _; apply nth_repeat|reflexivity]|].
+    rewrite ct_sel_eq. destruct (_ <=? 0); [reflexivity|apply nth_repeat].
+  - unfold PRpa, pais0. split; [split; [intros j _; apply nth_repeat|reflexivity]|].
+    rewrite pa_sel_proj. unfold pa_cap. cbn [pa_vals pa_n pa_last]. destruct (_ <=? 0); [reflexivity|apply nth_repeat].
+Qed.
 
-Theorem headers_vbound buf offs ncap cv o st' : offs <= nnat (length buf) ->
-  parse_headers buf offs (mkhdrs_st (hdrlst_init (repeat hdr0 ncap)) (Some (phvals_init cv))) = Done o EOk st' ->
+Theorem headers_vbound buf offs ncap nc o st' : offs <= nnat (length buf) ->
+  parse_headers buf offs (mkhdrs_st (hdrlst_init (repeat hdr0 ncap)) (Some (phvals_init (repeat pfrom0 nc)))) = Done o EOk st' ->
   forall j, (j < N.to_nat (hl_n (hs_l st')))%nat -> (j < length (hl_hdrs (hs_l st')))%nat -> vbound (nth j (hl_hdrs (hs_l st')) hdr0).
 Proof.
   intros Ho H. unfold parse_headers, parse in H. unfold zinit in H.
   assert (Hi : offs = nnat (length (rev (firstn (N.to_nat offs) buf)))) by (rewrite rev_length, firstn_length; unfold nnat in *; lia).
-  assert (H0 : BL (rev (firstn (N.to_nat offs) buf)) offs (mkhdrs_st (hdrlst_init (repeat hdr0 ncap)) (Some (phvals_init cv)))).
+  assert (H0 : BL (rev (firstn (N.to_nat offs) buf)) offs (mkhdrs_st (hdrlst_init (repeat hdr0 ncap)) (Some (phvals_init (repeat pfrom0 nc))))).
   { split; [apply PRv_init|]. split.
     - unfold LI, hdrlst_init. cbn. split; [split; [intros j _; apply nth_repeat|reflexivity]|].
       unfold hl_slot, hl_is_tmp, hl_cap. cbn. destruct (_ <=? 0); [reflexivity|apply nth_repeat].
@@ -400,8 +439,8 @@ Definition msg_vbound (m : pmsg) : Prop :=
   forall j, (j < N.to_nat (hl_n (hs_l (m_hs m))))%nat -> (j < length (hl_hdrs (hs_l (m_hs m))))%nat ->
     vbound (nth j (hl_hdrs (hs_l (m_hs m))) hdr0).
 
-Theorem message_vbound flags buf offs bl n cv o e m' : offs <= nnat (length buf) ->
-  parse_sipmsg flags buf offs (msg_init bl (repeat hdr0 n) cv) = Done o e m' -> m_state m' = MFIN \/ m_state m' = MNoCLen -> msg_vbound m'.
+Theorem message_vbound flags buf offs bl n nc o e m' : offs <= nnat (length buf) ->
+  parse_sipmsg flags buf offs (msg_init bl (repeat hdr0 n) (repeat pfrom0 nc)) = Done o e m' -> m_state m' = MFIN \/ m_state m' = MNoCLen -> msg_vbound m'.
 Proof.
   intros Hoffs. unfold parse_sipmsg, msg_init. cbn -[msg_fline]. unfold msg_fline. cbn -[parse_fline msg_headers msg_fail].
   pose proof (fline_safe buf offs fline0 Hoffs) as Hfs.
@@ -412,15 +451,15 @@ Proof.
   unfold msg_headers. cbn -[parse_headers msg_body msg_fail].
   assert (Ho1 : o1 <= nnat (length buf)).
   { assert (X : fl_inv offs fline0) by (unfold fl_inv, pf_end; cbn; repeat split; lia). specialize (Hfs X). apply Hfs. }
-  pose proof (headers_vbound buf o1 n cv) as Hc.
+  pose proof (headers_vbound buf o1 n nc) as Hc.
   destruct (parse_headers buf o1 _) as [o2 e2 hs| |]; try discriminate.
   destruct e2; try (apply Hf; right; reflexivity).
   intros H _. match type of H with msg_body ?f ?L ?oo ?mm = _ => pose proof (body_hs f L oo mm) as B end. rewrite H in B.
   unfold msg_vbound. rewrite B. cbn. apply (Hc o2 hs Ho1 eq_refl).
 Qed.
 
-Theorem message_vbound_fed flags B offs bl n cv o s o' e m' : testbit flags bSIPMsgNoMoreData = false -> offs <= nnat (length B) ->
-  feeds flags B offs (msg_init bl (repeat hdr0 n) cv) o s ->
+Theorem message_vbound_fed flags B offs bl n nc o s o' e m' : testbit flags bSIPMsgNoMoreData = false -> offs <= nnat (length B) ->
+  feeds flags B offs (msg_init bl (repeat hdr0 n) (repeat pfrom0 nc)) o s ->
   parse_sipmsg flags B o s = Done o' e m' -> m_state m' = MFIN \/ m_state m' = MNoCLen -> msg_vbound m'.
 Proof.
   intros Hf Hoffs Hfeed H. rewrite (feeds_same _ _ _ _ _ _ Hf Hfeed) in H. exact (message_vbound _ _ _ _ _ _ _ _ _ Hoffs H).
@@ -457,21 +496,20 @@ Definition after_name (h : hdr) : Prop := pl (h_val h) = 0 \/ pf_end (h_name h) 
 
 Theorem message_values_after_names flags buf offs L nh nc o m' : offs <= nnat (length buf) ->
   parse_sipmsg flags buf offs (msg_init L (repeat hdr0 nh) (repeat pfrom0 nc)) = Done o EOk m' ->
-  Forall (fun h => h_type h = HdrContact \/ h_type h = HdrPAI \/ after_name h) (stored (hs_l (m_hs m'))).
+  Forall after_name (stored (hs_l (m_hs m'))).
 Proof.
   intros Hoffs H.
   pose proof (fresh_message_layout flags buf offs _ Hoffs (or_introl (ex_intro _ L (ex_intro _ nh (ex_intro _ nc eq_refl))))) as Lay.
   rewrite H in Lay. destruct Lay as (_ & _ & _ & _ & _ & _ & a0 & _ & _ & Hch).
-  pose proof (message_vbound flags buf offs L nh (repeat pfrom0 nc) o EOk m' Hoffs H (or_introl (msg_ok_fin _ _ _ _ _ _ H))) as Hvb.
+  pose proof (message_vbound flags buf offs L nh nc o EOk m' Hoffs H (or_introl (msg_ok_fin _ _ _ _ _ _ H))) as Hvb.
   apply Forall_forall. intros h Hin.
   destruct (chain_all _ _ _ h Hch Hin) as (a & e & _ & _ & (_ & _ & Hw)).
   unfold stored in Hin. apply (In_nth _ _ hdr0) in Hin. destruct Hin as (j & Hj & <-). rewrite firstn_length in Hj.
   assert (Ej : nth j (firstn (N.to_nat (hl_n (hs_l (m_hs m')))) (hl_hdrs (hs_l (m_hs m')))) hdr0 = nth j (hl_hdrs (hs_l (m_hs m'))) hdr0).
   { rewrite <- (firstn_skipn (N.to_nat (hl_n (hs_l (m_hs m')))) (hl_hdrs (hs_l (m_hs m')))) at 2. rewrite app_nth1 by (rewrite firstn_length; lia). reflexivity. }
   rewrite Ej in *. set (hh := nth j (hl_hdrs (hs_l (m_hs m'))) hdr0) in *.
-  destruct (Hvb j ltac:(lia) ltac:(lia)) as [Hs|Hb].
-  - fold hh in Hs. unfold special in Hs. destruct (h_type hh =? HdrContact) eqn:E3; [left; lia|]. destruct (h_type hh =? HdrPAI) eqn:E4; [right; left; lia|].
-    right. right. apply Hw. unfold weak6. destruct (h_type hh =? HdrFrom) eqn:E1; [apply N.eqb_eq in E1; rewrite E1; reflexivity|].
-    destruct (h_type hh =? HdrTo) eqn:E2; [apply N.eqb_eq in E2; rewrite E2; reflexivity|]. cbn in Hs. rewrite ?E1, ?E2, ?E3, ?E4 in Hs. discriminate Hs.
-  - right. right. exact Hb.
+  destruct (Hvb j ltac:(lia) ltac:(lia)) as [Hs|Hb]; [|exact Hb].
+  fold hh in Hs. unfold special in Hs. apply Hw. unfold weak6.
+  destruct (h_type hh =? HdrFrom) eqn:E1; [apply N.eqb_eq in E1; rewrite E1; reflexivity|].
+  destruct (h_type hh =? HdrTo) eqn:E2; [apply N.eqb_eq in E2; rewrite E2; reflexivity|]. discriminate Hs.
 Qed.
